@@ -129,6 +129,23 @@ Proof.
   - rewrite Hx. auto.
 Qed.
 
+Lemma nadd_NoDup : forall n l, NoDup l -> NoDup (nadd n l).
+Proof.
+  intros n l H. unfold nadd. destruct (nmem n l) eqn:E; [exact H|].
+  apply nmem_false in E. apply NoDup_app_intro; [exact H|constructor; [intros []|constructor]|].
+  intros x Hx [<-|[]]. contradiction.
+Qed.
+Lemma set_computed_ext_NoDup : forall s n v fr bp rc, NoDup (s_ext s) -> NoDup (s_ext (set_computed s n v fr bp rc)).
+Proof.
+  intros s n v fr bp rc H. unfold set_computed.
+  assert (Hx : forall s1, s_ext (wire (put_info (match get_info s n with Some i => unwire s n (i_fwd i) rc | None => s end) n s1) n (fr_order fr)) = s_ext s).
+  { intro s1. rewrite (sg_ext _ _ (wire_sbg _ _ _)). unfold put_info. cbn [set_nodes s_ext].
+    destruct (get_info s n); [apply (sg_ext _ _ (unwire_sbg _ _ _ _))|reflexivity]. }
+  destruct (kind_eqb (nkind n) KExternal).
+  - cbn [set_ext s_ext]. rewrite Hx. apply nadd_NoDup. exact H.
+  - rewrite Hx. exact H.
+Qed.
+
 (** what is stored for [n]: an external input (the world's answer) or an executed body *)
 Definition NewKind (inp : menv) (n : node) (v : Z) (fr : frame) : Prop :=
   (nkind n = KExternal /\ fr_order fr = [] /\ fr_callees fr = [] /\ fr_tfc fr = [] /\ snd inp (nidx n) = Some v) \/
